@@ -1,22 +1,80 @@
 // c09.cpp — harness for property C09 (Laplacian Eigenmaps / Diffusion Map).
 //
 // One case per stdin line, whitespace separated; doubles are C hex floats (strtod reads them).
-//   LAP  id n width  <n lists: len id id ...>  <n*n distances, row major>
+//   LAP  id mode n width  <n lists: len id id ...>  <n*n distances, row major>  [<m> <m*(arg val)>]
 //        -> calls tapkee_internal::compute_laplacian directly with these neighbour lists
-//   DM   id n width  <n*n distances>
+//   DM   id mode n width  <n*n distances>  [<m> <m*(arg val)>]
 //        -> calls tapkee_internal::compute_diffusion_matrix directly
-//   LE   id n k d width emethod  <n*n distances>
-//        -> tapkee::embed(method=LaplacianEigenmaps, Brute neighbours, check_connectivity=false)
+//   LE   id n k d width emethod cc  <n*n distances>
+//        -> tapkee::embed(method=LaplacianEigenmaps, Brute neighbours, check_connectivity=cc)
 //           + an INDEPENDENT dense reference (own k-NN, own L and D, Eigen generalized solver)
 //   DMAP id n d t width emethod seed  <n*n distances>
 //        -> tapkee::embed(method=DiffusionMap) + an INDEPENDENT dense reference
 //           (own K, p, q, M; Eigen self-adjoint solver)
 //   emethod: 0 = Dense, 1 = Randomized
+//   mode (the exp VALUE ORACLE seen by the two routines; DESIGN 1.1 / 6-C09 "table of exp values
+//   shared by both sides"): 0 = libm exp; 1 = libm exp rounded to a multiple of 2^-12 (>= 2^-12),
+//   so that every sum the routines form is exact in binary64; 2 = the table given on the case line
+//   (exact argument match; a miss returns NaN and is reported as "@MISS").
+//   The oracle is interposed WITHOUT touching the library: the routines call `exp(...)` unqualified
+//   from namespace tapkee::tapkee_internal, so a function of that name declared there before the
+//   headers are included is the one they bind to.  Every call is logged ("@X count arg val ...").
+//   If the library stops going through the oracle (e.g. calls std::exp) the log is empty and the
+//   check falls back to the tolerance comparison for that case.
 // stdout: every line the check reads starts with '@'.  "@C id" is flushed before a case is
 // run (so that an abort can be attributed), "@END id" after it.  Matrices are printed row major
 // as hex floats.  The heat table "@H" is what the PROPERTY names, exp(-(d*d)/width), evaluated
-// by the harness with the same libm: it is the value-oracle table handed to the Coq model.
+// by the harness through the same oracle: it is the value-oracle table handed to the Coq model.
 #include <cmath>
+#include <mutex>
+#include <vector>
+#include <utility>
+#include <limits>
+namespace c09_oracle
+{
+static int mode = 0;
+static bool logging = false;
+static bool missed = false;
+static std::mutex mtx;
+static std::vector<std::pair<double, double>> calls;
+static std::vector<std::pair<double, double>> table;
+inline double value(double x)
+{
+    if (mode == 1)
+    {
+        double r = std::ldexp(std::nearbyint(std::ldexp(std::exp(x), 12)), -12);
+        return r < std::ldexp(1.0, -12) ? std::ldexp(1.0, -12) : r;
+    }
+    if (mode == 2)
+    {
+        for (size_t i = 0; i < table.size(); i++)
+            if (table[i].first == x) return table[i].second;
+        missed = true;
+        return std::numeric_limits<double>::quiet_NaN();
+    }
+    return std::exp(x);
+}
+inline double oracle_exp(double x)
+{
+    double v = value(x);
+    if (logging)
+    {
+        std::lock_guard<std::mutex> g(mtx);
+        if (calls.size() < 100000) calls.push_back(std::make_pair(x, v));
+    }
+    return v;
+}
+} // namespace c09_oracle
+namespace tapkee
+{
+namespace tapkee_internal
+{
+inline double exp(double x)
+{
+    return c09_oracle::oracle_exp(x);
+}
+} // namespace tapkee_internal
+} // namespace tapkee
 #include <cstdio>
 #include <cstdlib>
 #include <iostream>
@@ -24,7 +82,22 @@
 #include <string>
 #include <vector>
 #include <algorithm>
+#ifdef C09_FULL_API
+// thorough tier: the public entry point, dispatcher included (instantiates all 20 methods: slow build)
 #include <tapkee/tapkee.hpp>
+#else
+// quick tier: only the two method classes are instantiated; the six lines of tapkee::embed() and of
+// DynamicImplementation::embedUsing() that lead to them are replicated in embed_one() below
+#include <tapkee/defines.hpp>
+#include <tapkee/callbacks/dummy_callbacks.hpp>
+#include <tapkee/parameters/context.hpp>
+#include <tapkee/parameters/defaults.hpp>
+#include <tapkee/methods/base.hpp>
+#include <tapkee/routines/eigendecomposition.hpp>
+#include <tapkee/routines/generalized_eigendecomposition.hpp>
+#include <tapkee/methods/laplacian_eigenmaps.hpp>
+#include <tapkee/methods/diffusion_map.hpp>
+#endif
 #include <tapkee/routines/laplacian_eigenmaps.hpp>
 #include <tapkee/routines/diffusion_maps.hpp>
 
@@ -38,6 +111,46 @@ struct matrix_distance_callback
         return (*dm)(a, b);
     }
 };
+
+#ifdef C09_FULL_API
+template <template <class, class, class, class> class Impl>
+static TapkeeOutput embed_one(stichwort::ParametersSet parameters, const std::vector<IndexType>& idx,
+                              const matrix_distance_callback& cb)
+{
+    return tapkee::with(parameters).withDistance(cb).embedUsing(idx);
+}
+#define C09_IMPL(X) tapkee_internal::X##Implementation
+namespace tapkee { namespace tapkee_internal {
+template <class A, class B, class C, class D> class LaplacianEigenmapsImplementation;
+template <class A, class B, class C, class D> class DiffusionMapImplementation;
+} }
+#else
+// tapkee::embed() + the dispatch macro of methods.hpp for exactly one method class
+template <template <class, class, class, class> class Impl>
+static TapkeeOutput embed_one(stichwort::ParametersSet parameters, const std::vector<IndexType>& idx,
+                              const matrix_distance_callback& cb)
+{
+    typedef std::vector<IndexType>::const_iterator It;
+    typedef dummy_kernel_callback<IndexType> KC;
+    typedef dummy_features_callback<IndexType> FC;
+    try
+    {
+        parameters.check();
+        parameters.merge(tapkee_internal::defaults);
+        tapkee_internal::Context context(nullptr, nullptr);
+        tapkee_internal::ImplementationBase<It, KC, matrix_distance_callback, FC> base(
+            idx.begin(), idx.end(), KC(), cb, FC(), parameters, context);
+        Impl<It, KC, matrix_distance_callback, FC> implementation(base);
+        implementation.validate();
+        return implementation.embed();
+    }
+    catch (const stichwort::wrong_parameter_error& ex)
+    {
+        throw tapkee::wrong_parameter_error(ex.what());
+    }
+}
+#define C09_IMPL(X) tapkee_internal::X##Implementation
+#endif
 
 static void print_mat(const char* tag, const DenseMatrix& m)
 {
@@ -67,9 +180,50 @@ static DenseMatrix heat_table(const DenseMatrix& dist, double width)
     DenseMatrix h(n, n);
     for (int i = 0; i < n; i++)
         for (int j = 0; j < n; j++)
-            h(i, j) = std::exp(-(dist(i, j) * dist(i, j)) / width);
+            h(i, j) = c09_oracle::value(-(dist(i, j) * dist(i, j)) / width);
     return h;
 }
+
+
+static void print_calls()
+{
+    printf("@X %d", (int)c09_oracle::calls.size());
+    for (size_t i = 0; i < c09_oracle::calls.size(); i++)
+        printf(" %a %a", c09_oracle::calls[i].first, c09_oracle::calls[i].second);
+    printf("\n");
+    if (c09_oracle::missed) printf("@MISS\n");
+}
+
+static bool read_table(std::istringstream& is)
+{
+    c09_oracle::table.clear();
+    if (c09_oracle::mode != 2) return true;
+    int m;
+    if (!(is >> m) || m < 0 || m > 100000) return false;
+    std::string a, v;
+    for (int i = 0; i < m; i++)
+    {
+        if (!(is >> a >> v)) return false;
+        c09_oracle::table.push_back(std::make_pair(strtod(a.c_str(), NULL), strtod(v.c_str(), NULL)));
+    }
+    return true;
+}
+
+struct oracle_scope
+{
+    oracle_scope(int m)
+    {
+        c09_oracle::mode = m;
+        c09_oracle::calls.clear();
+        c09_oracle::missed = false;
+    }
+    ~oracle_scope()
+    {
+        c09_oracle::mode = 0;
+        c09_oracle::logging = false;
+        c09_oracle::table.clear();
+    }
+};
 
 // ---------------------------------------------------------------- independent references
 static std::vector<std::vector<int>> own_knn(const DenseMatrix& dist, int k)
@@ -106,8 +260,10 @@ static bool undirected_connected(const std::vector<std::vector<int>>& nb)
 
 static void run_lap(std::istringstream& is)
 {
-    int n; std::string wtok;
-    is >> n >> wtok;
+    int n, md; std::string wtok;
+    is >> md >> n >> wtok;
+    if (!is || n < 0 || n > 4096 || md < 0 || md > 2) { printf("@BADINPUT\n"); return; }
+    oracle_scope scope(md);
     double width = strtod(wtok.c_str(), NULL);
     tapkee_internal::Neighbors neighbors;
     for (int i = 0; i < n; i++)
@@ -118,38 +274,47 @@ static void run_lap(std::istringstream& is)
         neighbors.push_back(ln);
     }
     DenseMatrix dist;
-    if (!read_mat(is, n, dist)) { printf("@BADINPUT\n"); return; }
+    if (!read_mat(is, n, dist) || !read_table(is)) { printf("@BADINPUT\n"); return; }
     std::vector<IndexType> idx(n);
     for (int i = 0; i < n; i++) idx[i] = i;
     matrix_distance_callback cb{&dist};
+    c09_oracle::logging = true;
     tapkee_internal::Laplacian lap =
         tapkee_internal::compute_laplacian(idx.begin(), idx.end(), neighbors, cb, width);
+    c09_oracle::logging = false;
     DenseMatrix L = DenseMatrix(lap.first);
     DenseMatrix D = lap.second.diagonal().transpose();
     print_mat("L", L);
     print_mat("D", D);
+    print_calls();
     print_mat("H", heat_table(dist, width));
 }
 
 static void run_dm(std::istringstream& is)
 {
-    int n; std::string wtok;
-    is >> n >> wtok;
+    int n, md; std::string wtok;
+    is >> md >> n >> wtok;
+    if (!is || n < 0 || n > 4096 || md < 0 || md > 2) { printf("@BADINPUT\n"); return; }
+    oracle_scope scope(md);
     double width = strtod(wtok.c_str(), NULL);
     DenseMatrix dist;
-    if (!read_mat(is, n, dist)) { printf("@BADINPUT\n"); return; }
+    if (!read_mat(is, n, dist) || !read_table(is)) { printf("@BADINPUT\n"); return; }
     std::vector<IndexType> idx(n);
     for (int i = 0; i < n; i++) idx[i] = i;
     matrix_distance_callback cb{&dist};
+    c09_oracle::logging = true;
     DenseMatrix M = tapkee_internal::compute_diffusion_matrix(idx.begin(), idx.end(), cb, width);
+    c09_oracle::logging = false;
     print_mat("M", M);
+    print_calls();
     print_mat("H", heat_table(dist, width));
 }
 
 static void run_le(std::istringstream& is)
 {
-    int n, k, d, em; std::string wtok;
-    is >> n >> k >> d >> wtok >> em;
+    int n, k, d, em, cc; std::string wtok;
+    is >> n >> k >> d >> wtok >> em >> cc;
+    if (!is || n < 0 || n > 4096) { printf("@BADINPUT\n"); return; }
     double width = strtod(wtok.c_str(), NULL);
     DenseMatrix dist;
     if (!read_mat(is, n, dist)) { printf("@BADINPUT\n"); return; }
@@ -192,12 +357,10 @@ static void run_le(std::istringstream& is)
     fflush(stdout);
     try
     {
-        TapkeeOutput out = tapkee::initialize()
-            .withParameters((method = LaplacianEigenmaps, num_neighbors = k, target_dimension = d,
-                             gaussian_kernel_width = width, eigen_method = (em == 0 ? Dense : Randomized),
-                             neighbors_method = Brute, check_connectivity = false))
-            .withDistance(cb)
-            .embedUsing(idx);
+        TapkeeOutput out = embed_one<C09_IMPL(LaplacianEigenmaps)>(
+            (method = LaplacianEigenmaps, num_neighbors = k, target_dimension = d,
+             gaussian_kernel_width = width, eigen_method = (em == 0 ? Dense : Randomized),
+             neighbors_method = Brute, check_connectivity = (cc != 0)), idx, cb);
         print_mat("Y", out.embedding);
     }
     catch (const std::exception& e)
@@ -240,11 +403,9 @@ static void run_dmap(std::istringstream& is)
     std::srand(seed);
     try
     {
-        TapkeeOutput out = tapkee::initialize()
-            .withParameters((method = DiffusionMap, target_dimension = d, diffusion_map_timesteps = t,
-                             gaussian_kernel_width = width, eigen_method = (em == 0 ? Dense : Randomized)))
-            .withDistance(cb)
-            .embedUsing(idx);
+        TapkeeOutput out = embed_one<C09_IMPL(DiffusionMap)>(
+            (method = DiffusionMap, target_dimension = d, diffusion_map_timesteps = t,
+             gaussian_kernel_width = width, eigen_method = (em == 0 ? Dense : Randomized)), idx, cb);
         print_mat("Y", out.embedding);
     }
     catch (const std::exception& e)
